@@ -63,7 +63,7 @@ func (check) Plan(tier string, seed int64) []harness.Batch {
 		bs = append(bs, harness.Batch{Name: fmt.Sprintf("timing-%d", p), Seed: seed*37 + int64(p), Spec: s, TimeoutS: 3000, CaseTimeoutS: 300})
 	}
 	for p := 0; p < 4; p++ {
-		s, _ := json.Marshal(spec{Kind: "close-blocked", N: 3 * nt})
+		s, _ := json.Marshal(spec{Kind: "close-blocked", N: 3 * nt, Part: p})
 		bs = append(bs, harness.Batch{Name: fmt.Sprintf("close-blocked-%d", p), Seed: seed*47 + int64(p), Spec: s, TimeoutS: 3000, CaseTimeoutS: 300})
 	}
 	// schedule injection uses process-global hook arming: serial batches
@@ -792,20 +792,39 @@ func evalCloseBlocked(cc closeCase) (key, detail, observed, expected string) {
 	return "", "", "", ""
 }
 
-func runCloseBlocked(w *harness.W, r gen.R, n int) {
+func runCloseBlocked(w *harness.W, r gen.R, n int, part int) {
 	wakes := []string{"x", "\x1b", "\x1b[?62;4c", "\x1b[", "\x1b]0;t", "\u00e9", "ab\x1b"}
-	for i := 0; i < n; i++ {
-		cc := closeCase{Before: hex.EncodeToString([]byte(befores[r.Intn(len(befores))] + []string{"", "ab", "abc"}[r.Intn(3)])), Wake: hex.EncodeToString([]byte(wakes[r.Intn(len(wakes))])), ConsumerMs: []int{0, 0, 30}[r.Intn(3)]}
-		cj, _ := json.Marshal(cc)
-		w.Begin(string(cj))
-		key, det, obs, exp := evalCloseBlocked(cc)
-		w.End()
-		w.Case(string(cj))
-		w.Count("close_while_blocked_cases", 1)
-		if key != "" {
-			w.Violation(key, det, cc, obs, exp)
-		} else if i == 0 {
-			w.Sample(cc)
+	delays := []int{0, 30}
+	if w.Tier == "thorough" {
+		delays = []int{0, 2, 12, 30, 80}
+	}
+	// the whole product (what was read before, the wake-up bytes, how slow
+	// the consumer is), this part's quarter of it
+	k := 0
+	first := true
+	for _, b := range befores {
+		for _, suffix := range []string{"", "ab", "abc"} {
+			for _, wk := range wakes {
+				for _, d := range delays {
+					k++
+					if k%4 != part%4 {
+						continue
+					}
+					cc := closeCase{Before: hex.EncodeToString([]byte(b + suffix)), Wake: hex.EncodeToString([]byte(wk)), ConsumerMs: d}
+					cj, _ := json.Marshal(cc)
+					w.Begin(string(cj))
+					key, det, obs, exp := evalCloseBlocked(cc)
+					w.End()
+					w.Case(string(cj))
+					w.Count("close_while_blocked_cases", 1)
+					if key != "" {
+						w.Violation(key, det, cc, obs, exp)
+					} else if first {
+						first = false
+						w.Sample(cc)
+					}
+				}
+			}
 		}
 	}
 }
@@ -824,7 +843,7 @@ func (c check) Run(w *harness.W, b harness.Batch) {
 	case "timing":
 		runTimingBatch(w, r, s.N)
 	case "close-blocked":
-		runCloseBlocked(w, r, s.N)
+		runCloseBlocked(w, r, s.N, s.Part)
 	case "schedule":
 		runSchedule(w, r, s.N)
 	}
